@@ -1,6 +1,899 @@
 package main
 
-import "verifharness/kit"
+// Part B: the five disruption methods' ComputeCommands under generated budget mappings (B1), the
+// validators' re-check after the world changed (V), and multi-round histories through the real
+// Controller.Reconcile / Queue (R).
 
-func partMethods(c *kit.Ctx) {}
-func partRounds(c *kit.Ctx)  {}
+import (
+	"context"
+	"fmt"
+	"sort"
+	"strings"
+	"time"
+
+	corev1 "k8s.io/api/core/v1"
+	"sigs.k8s.io/controller-runtime/pkg/client"
+
+	v1 "sigs.k8s.io/karpenter/pkg/apis/v1"
+	"sigs.k8s.io/karpenter/pkg/controllers/disruption"
+	"sigs.k8s.io/karpenter/pkg/state/cost"
+
+	"verifharness/kit"
+)
+
+var methodNames = []string{"MEmptiness", "MStaticDrift", "MDrift", "MMulti", "MSingle"}
+
+const (
+	mEmptiness = iota
+	mStaticDrift
+	mDrift
+	mMulti
+	mSingle
+)
+
+func methodReason(m int) v1.DisruptionReason {
+	switch m {
+	case mEmptiness:
+		return v1.DisruptionReasonEmpty
+	case mStaticDrift, mDrift:
+		return v1.DisruptionReasonDrifted
+	}
+	return v1.DisruptionReasonUnderutilized
+}
+
+// passValidator accepts every command and remembers it (the proposal before validation).
+type passValidator struct{ got []disruption.Command }
+
+func (p *passValidator) Validate(_ context.Context, cmd disruption.Command, _ time.Duration) (disruption.Command, error) {
+	p.got = append(p.got, cmd)
+	return cmd, nil
+}
+
+// delayedValidator stands for the 15 s validation delay: it lets the world change (between), then
+// runs the real validator without waiting.
+type delayedValidator struct {
+	inner   disruption.Validator
+	between func()
+	prop    []disruption.Command
+}
+
+func (d *delayedValidator) Validate(ctx context.Context, cmd disruption.Command, _ time.Duration) (disruption.Command, error) {
+	d.prop = append(d.prop, cmd)
+	if d.between != nil {
+		d.between()
+	}
+	return d.inner.Validate(ctx, cmd, 0)
+}
+
+func (w *world) newMethod(m int, val disruption.Validator, real bool) disruption.Method {
+	cons := disruption.MakeConsolidation(w.clk, w.cluster, w.c, w.prov, w.cp, w.recorder, w.queue)
+	switch m {
+	case mEmptiness:
+		if real {
+			val.(*delayedValidator).inner = disruption.NewEmptinessValidator(cons)
+		}
+		return disruption.NewEmptiness(cons, disruption.WithValidator(val))
+	case mStaticDrift:
+		return disruption.NewStaticDrift(w.cluster, w.prov, w.cp)
+	case mDrift:
+		return disruption.NewDrift(w.c, w.cluster, w.prov, w.recorder, w.clk)
+	case mMulti:
+		if real {
+			val.(*delayedValidator).inner = disruption.NewMultiConsolidationValidator(cons)
+		}
+		return disruption.NewMultiNodeConsolidation(cons, disruption.WithValidator(val))
+	default:
+		if real {
+			val.(*delayedValidator).inner = disruption.NewSingleConsolidationValidator(cons)
+		}
+		return disruption.NewSingleNodeConsolidation(cons, disruption.WithValidator(val))
+	}
+}
+
+func nodeID(name string) int {
+	var id int
+	fmt.Sscanf(name, "node-%d", &id)
+	return id
+}
+
+type jCand struct {
+	Node  int  `json:"node"`
+	Pool  int  `json:"pool"`
+	Empty bool `json:"empty"`
+	Nom   bool `json:"nominated,omitempty"`
+	SimOK bool `json:"sim_ok"`
+}
+
+func gCand(c jCand) string {
+	return fmt.Sprintf("(mkCand %s %s %s %s %s)", kit.GZ(int64(c.Node)), kit.GZ(int64(c.Pool)), kit.GBool(c.Empty), kit.GBool(c.Nom), kit.GBool(c.SimOK))
+}
+
+func (w *world) poolID(name string) int {
+	for id, np := range w.pools {
+		if np.Name == name {
+			return id
+		}
+	}
+	return 0
+}
+
+func (w *world) toJCands(cs []*disruption.Candidate, pinned map[int]bool) []jCand {
+	out := make([]jCand, len(cs))
+	for i, c := range cs {
+		id := nodeID(c.Name())
+		out[i] = jCand{Node: id, Pool: w.poolID(c.NodePool.Name), Empty: c.IsEmpty(), Nom: w.cluster.IsNodeNominated(c.ProviderID()), SimOK: !pinned[id]}
+	}
+	return out
+}
+
+func cmdIDs(cmds []disruption.Command) []int {
+	var out []int
+	for _, cmd := range cmds {
+		for _, c := range cmd.Candidates {
+			out = append(out, nodeID(c.Name()))
+		}
+	}
+	return out
+}
+
+func gInts(xs []int) string {
+	return kit.GListOf(xs, func(x int) string { return kit.GZ(int64(x)) })
+}
+
+func gMapInt(m map[int]int) string {
+	keys := make([]int, 0, len(m))
+	for k := range m {
+		keys = append(keys, k)
+	}
+	sort.Ints(keys)
+	return kit.GListOf(keys, func(k int) string { return kit.GPair(kit.GZ(int64(k)), kit.GZ(int64(m[k]))) })
+}
+
+// genWorld: pools with a few nodes each; plus two do-not-disrupt anchor nodes with spare capacity
+// so that every movable pod has somewhere to go.
+func genWorld(r *kit.Rand, m int, nPools int) ([]jPool, []jNode, map[int]bool) {
+	var pools []jPool
+	for i := 1; i <= nPools; i++ {
+		p := jPool{ID: i, Name: poolName(i)}
+		if m == mStaticDrift {
+			p.Static = true
+			p.Replicas = r.Range(1, 6)
+			if r.Chance(1, 2) {
+				p.Limit = ptr(r.Range(1, 8))
+			}
+		}
+		pools = append(pools, p)
+	}
+	if m != mStaticDrift {
+		pools = append(pools, jPool{ID: 9, Name: poolName(9)})
+	}
+	var nodes []jNode
+	pinned := map[int]bool{}
+	id := 1
+	for _, p := range pools {
+		if p.ID == 9 {
+			continue
+		}
+		total := r.Range(0, 6)
+		if p.Static {
+			total = r.Range(0, p.Replicas+1)
+		}
+		for k := 0; k < total; k++ {
+			n := jNode{ID: id, Pool: p.ID, Managed: true, HasNode: true, Init: true, Ready: "True"}
+			switch m {
+			case mEmptiness:
+				if r.Chance(1, 4) {
+					n.Pods = 1
+				}
+			case mMulti, mSingle:
+				n.Pods = r.Range(1, 2)
+				if r.Chance(1, 6) {
+					n.Pods = 0
+				}
+				if m == mSingle && r.Chance(1, 4) {
+					n.Pinned = true
+				}
+			case mDrift:
+				n.Drifted = r.Chance(4, 5)
+				n.Pods = r.Intn(2)
+				if n.Pods > 0 && r.Chance(1, 4) {
+					n.Pinned = true
+				}
+			case mStaticDrift:
+				n.Drifted = r.Chance(4, 5)
+				n.Pods = r.Intn(2)
+			}
+			// a few already unhealthy / disrupting nodes
+			switch r.Intn(14) {
+			case 0:
+				n.Ready = "False"
+			case 1:
+				n.Marked = true
+			case 2:
+				n.Deleting = true
+			}
+			if n.Pinned && n.Pods > 0 {
+				pinned[id] = true
+				// pods of a deleting node take part in every simulation; pinned ones would block them all
+				n.Marked, n.Deleting = false, false
+			}
+			nodes = append(nodes, n)
+			id++
+		}
+	}
+	if m != mStaticDrift {
+		for k := 0; k < 2; k++ {
+			nodes = append(nodes, jNode{ID: 900 + k, Pool: 9, Managed: true, HasNode: true, Init: true, Ready: "True", Anchor: true})
+		}
+	}
+	return pools, nodes, pinned
+}
+
+func (w *world) build(pools []jPool, nodes []jNode) {
+	for _, p := range pools {
+		w.addPool(p)
+	}
+	for _, n := range nodes {
+		w.addNode(n)
+	}
+}
+
+func (w *world) candidates(meth disruption.Method) []*disruption.Candidate {
+	return w.candidatesWith(meth.ShouldDisrupt, meth.Class())
+}
+
+func (w *world) candidatesWith(filter disruption.CandidateFilter, class string) []*disruption.Candidate {
+	cs, err := disruption.GetCandidates(w.ctx, w.cluster, w.c, w.recorder, w.clk, w.cp, filter, class, w.queue)
+	if err != nil {
+		panic(err)
+	}
+	// cluster state iterates a map; fix an order so that cases replay
+	sort.Slice(cs, func(i, j int) bool { return cs[i].Name() < cs[j].Name() })
+	return cs
+}
+
+type caseB struct {
+	Kind    string      `json:"kind"`
+	Method  string      `json:"method"`
+	Mapping map[int]int `json:"mapping"`
+	Pools   []jPool     `json:"pools"`
+	Nodes   []jNode     `json:"nodes"`
+	Cands   []jCand     `json:"candidates_in_method_order"`
+	Choice  string      `json:"choice"`
+	Obs     []int       `json:"impl_selected"`
+}
+
+// genMapping: values around the number of candidates per pool (0, 1, fewer, exactly, more).
+func genMapping(r *kit.Rand, pools []jPool, perPool map[int]int) map[int]int {
+	mp := map[int]int{}
+	for _, p := range pools {
+		n := perPool[p.ID]
+		switch r.Intn(7) {
+		case 0: // absent: reads 0
+		case 1:
+			mp[p.ID] = 0
+		case 2:
+			mp[p.ID] = 1
+		case 3:
+			mp[p.ID] = n
+		case 4:
+			mp[p.ID] = n + 1
+		case 5:
+			if n > 1 {
+				mp[p.ID] = n - 1
+			} else {
+				mp[p.ID] = 2
+			}
+		default:
+			mp[p.ID] = 2147483647
+		}
+	}
+	return mp
+}
+
+func runMethod(c *kit.Ctx, r *kit.Rand, m int) {
+	pools, nodes, pinned := genWorld(r, m, r.Range(1, 3))
+	w := newWorld(baseTimes[0].UnixNano())
+	w.build(pools, nodes)
+	val := &passValidator{}
+	meth := w.newMethod(m, val, false)
+	cs := w.candidates(meth)
+	if m == mEmptiness && r.Chance(1, 2) {
+		// hand Emptiness every disruptable node (it re-checks IsEmpty itself)
+		cs = w.candidatesWith(func(context.Context, *disruption.Candidate) bool { return true }, meth.Class())
+	}
+	perPool := map[int]int{}
+	for _, cd := range cs {
+		perPool[w.poolID(cd.NodePool.Name)]++
+	}
+	mpID := genMapping(r, pools, perPool)
+	mp := map[string]int{}
+	for id, v := range mpID {
+		mp[poolName(id)] = v
+	}
+	choice := "(ChK 0)"
+	if m == mStaticDrift {
+		var groups []string
+		for _, p := range pools {
+			limit := int64(9223372036854775807)
+			if p.Limit != nil {
+				limit = int64(*p.Limit)
+			}
+			reserved := int64(0)
+			if r.Chance(1, 3) { // somebody (provisioning) already holds a reservation
+				reserved = w.cluster.NodePoolState.ReserveNodeCount(p.Name, limit, int64(r.Range(1, 2)))
+			}
+			a, d, pd := w.cluster.NodePoolState.GetNodeCount(p.Name)
+			groups = append(groups, fmt.Sprintf("(%s, mkCounts %s %s %s %s)", kit.GZ(int64(p.ID)), kit.GZ(int64(a)), kit.GZ(int64(d)), kit.GZ(int64(pd)), kit.GZ(reserved)))
+		}
+		choice = "(ChStatic " + kit.GList(groups) + ")"
+	}
+	cmds, err := meth.ComputeCommands(w.ctx, mp, cs...)
+	if err != nil {
+		panic(fmt.Sprintf("%s.ComputeCommands: %v", methodNames[m], err))
+	}
+	obs := cmdIDs(cmds)
+	// ComputeCommands sorted the slice it was given in place (emptiness, multi): cs is now in the method's order
+	jc := w.toJCands(cs, pinned)
+	if m == mMulti {
+		choice = fmt.Sprintf("(ChK %d)", len(obs))
+	}
+	if m == mSingle || m == mDrift {
+		// which simulations succeed is a choice of the model, taken from what the implementation did
+		for i := range jc {
+			jc[i].SimOK = len(obs) > 0 && jc[i].Node == obs[0]
+		}
+	}
+	// distribution: how the budget bit
+	constrained, tookAll := false, true
+	sel := map[int]int{}
+	for _, id := range obs {
+		for _, x := range jc {
+			if x.Node == id {
+				sel[x.Pool]++
+			}
+		}
+	}
+	for pid, n := range perPool {
+		if mpID[pid] < n {
+			constrained = true
+		}
+		if sel[pid] < n {
+			tookAll = false
+		}
+	}
+	switch {
+	case len(cs) == 0:
+		c.Count("B:" + methodNames[m] + ":no-candidates")
+	case len(obs) == 0 && constrained:
+		c.Count("B:" + methodNames[m] + ":nothing-selected,budget-constrained")
+	case len(obs) == 0:
+		c.Count("B:" + methodNames[m] + ":nothing-selected,unconstrained")
+	case constrained && !tookAll:
+		c.Count("B:" + methodNames[m] + ":selected,budget-bound")
+	default:
+		c.Count("B:" + methodNames[m] + ":selected,budget-slack")
+	}
+	key := ""
+	if len(cs) > 0 {
+		key = fmt.Sprintf("B:%s|%s|%v|%v", methodNames[m], gMapInt(mpID), jc, obs)
+	}
+	c.AddCase(fmt.Sprintf("CaseB %s %s %s %s %s %s", methodNames[m], gMapInt(mpID),
+		kit.GListOf(pools, func(p jPool) string { return gPool(p, w.clk.Now().UnixNano()) }),
+		kit.GListOf(jc, gCand), choice, gInts(obs)),
+		caseB{"method", methodNames[m], mpID, pools, nodes, jc, choice, obs}, key)
+}
+
+// ---- V: validators ----
+
+type jEvent struct {
+	Kind    string    `json:"kind"`
+	Node    int       `json:"node,omitempty"`
+	Pool    int       `json:"pool,omitempty"`
+	Ready   bool      `json:"ready,omitempty"`
+	Time    int64     `json:"time,omitempty"`
+	Budgets []jBudget `json:"budgets,omitempty"`
+	NewNode *jNode    `json:"new_node,omitempty"`
+}
+
+// apply performs the event in the real world (API + cluster state, the way informers deliver it).
+func (w *world) apply(e jEvent) {
+	switch e.Kind {
+	case "ready":
+		n := &corev1.Node{}
+		if err := w.c.Get(w.ctx, client.ObjectKey{Name: fmt.Sprintf("node-%03d", e.Node)}, n); err != nil {
+			return
+		}
+		st := corev1.ConditionFalse
+		if e.Ready {
+			st = corev1.ConditionTrue
+		}
+		n.Status.Conditions = []corev1.NodeCondition{{Type: corev1.NodeReady, Status: st}}
+		if err := w.c.Status().Update(w.ctx, n); err != nil {
+			panic(err)
+		}
+		w.refresh(e.Node)
+	case "delete":
+		if nc, ok := w.claims[e.Node]; ok {
+			_ = w.c.Delete(w.ctx, nc)
+			w.refresh(e.Node)
+		}
+	case "mark":
+		w.cluster.MarkForDeletion(providerID(e.Node))
+	case "nominate":
+		w.cluster.NominateNodeForPod(w.ctx, providerID(e.Node))
+	case "clock":
+		w.clk.SetTime(time.Unix(0, e.Time))
+	case "budgets":
+		w.setBudgets(e.Pool, e.Budgets)
+	case "add":
+		w.addNode(*e.NewNode)
+	}
+}
+
+type caseV struct {
+	Kind    string      `json:"kind"`
+	Method  string      `json:"method"`
+	Pools   []jPool     `json:"pools"`
+	Nodes   []jNode     `json:"nodes"`
+	Prop    []jCand     `json:"proposed"`
+	Events  []jEvent    `json:"events_before_validation"`
+	Mapping map[int]int `json:"mapping_at_validation"`
+	Cur     []jCand     `json:"candidates_at_validation"`
+	Obs     []int       `json:"impl_validated"`
+}
+
+func runValidator(c *kit.Ctx, r *kit.Rand, m int) {
+	pools, nodes, pinned := genWorld(r, m, r.Range(1, 2))
+	// budgets that leave room at first
+	for i := range pools {
+		pools[i].Budgets = []jBudget{{Nodes: fmt.Sprint(r.Range(1, 4))}}
+	}
+	w := newWorld(baseTimes[0].UnixNano())
+	w.build(pools, nodes)
+	pv := &passValidator{}
+	meth := w.newMethod(m, pv, false)
+	cs := w.candidates(meth)
+	mp, err := disruption.BuildDisruptionBudgetMapping(w.ctx, w.cluster, w.clk, w.c, w.cp, w.recorder, meth.Reason())
+	if err != nil {
+		panic(err)
+	}
+	if _, err := meth.ComputeCommands(w.ctx, mp, cs...); err != nil {
+		panic(err)
+	}
+	if len(pv.got) == 0 {
+		c.Count("V:" + methodNames[m] + ":no-proposal")
+		return
+	}
+	cmd := pv.got[0]
+	prop := w.toJCands(cmd.Candidates, pinned)
+	// the world moves during the validation delay
+	var evs []jEvent
+	others := []int{}
+	for _, n := range nodes {
+		if !n.Anchor && !pinned[n.ID] {
+			others = append(others, n.ID)
+		}
+	}
+	for k := r.Intn(4); k > 0 && len(others) > 0; k-- {
+		switch r.Intn(6) {
+		case 0:
+			evs = append(evs, jEvent{Kind: "ready", Node: kit.Pick(r, others), Ready: false})
+		case 1:
+			evs = append(evs, jEvent{Kind: "mark", Node: kit.Pick(r, others)})
+		case 2:
+			evs = append(evs, jEvent{Kind: "delete", Node: kit.Pick(r, others)})
+		case 3:
+			evs = append(evs, jEvent{Kind: "nominate", Node: kit.Pick(r, prop).Node})
+		case 4:
+			p := kit.Pick(r, pools)
+			evs = append(evs, jEvent{Kind: "budgets", Pool: p.ID, Budgets: []jBudget{{Nodes: fmt.Sprint(r.Range(0, 2))}}})
+		case 5:
+			p := kit.Pick(r, pools)
+			evs = append(evs, jEvent{Kind: "budgets", Pool: p.ID, Budgets: []jBudget{{Nodes: kit.Pick(r, []string{"0%", "10%", "50%"})}, {Nodes: "3"}}})
+		}
+	}
+	for _, e := range evs {
+		w.apply(e)
+	}
+	dv := &delayedValidator{}
+	real := w.newMethod(m, dv, true)
+	cur := w.candidates(real)
+	mp2, err := disruption.BuildDisruptionBudgetMapping(w.ctx, w.cluster, w.clk, w.c, w.cp, w.recorder, real.Reason())
+	if err != nil {
+		panic(err)
+	}
+	mpID := map[int]int{}
+	for name, v := range mp2 {
+		mpID[w.poolID(name)] = v
+	}
+	out, verr := dv.inner.Validate(w.ctx, cmd, 0)
+	var obs []int
+	if verr == nil {
+		obs = cmdIDs([]disruption.Command{out})
+	} else if !disruption.IsValidationError(verr) {
+		panic(verr)
+	}
+	jcur := w.toJCands(cur, pinned)
+	switch {
+	case verr != nil:
+		c.Count("V:" + methodNames[m] + ":rejected")
+	case len(obs) < len(prop):
+		c.Count("V:" + methodNames[m] + ":trimmed")
+	default:
+		c.Count("V:" + methodNames[m] + ":accepted")
+	}
+	c.AddCase(fmt.Sprintf("CaseV %s %s %s %s %s", methodNames[m], gMapInt(mpID), kit.GListOf(prop, gCand), kit.GListOf(jcur, gCand), gInts(obs)),
+		caseV{"validator", methodNames[m], pools, nodes, prop, evs, mpID, jcur, obs},
+		fmt.Sprintf("V:%s|%v|%v|%v|%v", methodNames[m], prop, mpID, jcur, obs))
+}
+
+func partMethods(c *kit.Ctx) {
+	n := 40
+	if c.Thorough() {
+		n = 400
+	}
+	for m := 0; m < 5; m++ {
+		for i := 0; i < n; i++ {
+			runMethod(c, c.Rand.Fork(), m)
+		}
+	}
+	for _, m := range []int{mEmptiness, mMulti, mSingle} {
+		for i := 0; i < n; i++ {
+			runValidator(c, c.Rand.Fork(), m)
+		}
+	}
+}
+
+// ---- R: histories through Controller.Reconcile and the Queue ----
+
+// recMethod wraps a real method and records what the controller handed to it.
+type recMethod struct {
+	disruption.Method
+	mapping map[string]int
+	cands   []*disruption.Candidate
+	cmds    []disruption.Command
+	called  bool
+}
+
+func (m *recMethod) ComputeCommands(ctx context.Context, mp map[string]int, cs ...*disruption.Candidate) ([]disruption.Command, error) {
+	m.called = true
+	m.mapping = map[string]int{}
+	for k, v := range mp {
+		m.mapping[k] = v
+	}
+	cmds, err := m.Method.ComputeCommands(ctx, mp, cs...)
+	m.cands = cs // sorted in place by the method
+	m.cmds = cmds
+	return cmds, err
+}
+
+type roundState struct {
+	w      *world
+	pools  []jPool
+	nodes  map[int]*jNode // the model's view, kept in step with the events the harness applies
+	order  []int
+	pinned map[int]bool
+	queue  map[int]bool
+}
+
+func (s *roundState) gSys() string {
+	var ns []string
+	for _, id := range s.order {
+		ns = append(ns, gNode(*s.nodes[id]))
+	}
+	now := s.w.clk.Now().UnixNano()
+	return fmt.Sprintf("(mkSys %s %s %s [])", kit.GZ(now), kit.GListOf(s.pools, func(p jPool) string { return gPool(p, now) }), kit.GList(ns))
+}
+
+func gEnv(e jEvent, now int64) string {
+	switch e.Kind {
+	case "ready":
+		return fmt.Sprintf("(EReady %s %s)", kit.GZ(int64(e.Node)), kit.GBool(e.Ready))
+	case "delete":
+		return fmt.Sprintf("(EDelete %s)", kit.GZ(int64(e.Node)))
+	case "clock":
+		return fmt.Sprintf("(EClock %s)", kit.GZ(e.Time))
+	case "budgets":
+		var bs []string
+		for _, b := range e.Budgets {
+			t, _ := gBudget(b, now)
+			bs = append(bs, t)
+		}
+		return fmt.Sprintf("(EBudgets %s %s)", kit.GZ(int64(e.Pool)), kit.GList(bs))
+	case "add":
+		return fmt.Sprintf("(EAdd %s)", gNode(*e.NewNode))
+	}
+	panic("gEnv: " + e.Kind)
+}
+
+// envTerms renders an event for the model. After a clock move the schedules' (next, last)
+// descriptions are re-supplied for the new instant through EBudgets (a no-op in the real world).
+func (s *roundState) envTerms(e jEvent) []string {
+	now := s.w.clk.Now().UnixNano()
+	out := []string{gEnv(e, now)}
+	if e.Kind == "clock" {
+		for _, p := range s.pools {
+			out = append(out, gEnv(jEvent{Kind: "budgets", Pool: p.ID, Budgets: p.Budgets}, e.Time))
+		}
+	}
+	return out
+}
+
+func (s *roundState) applyEvent(e jEvent) {
+	s.w.apply(e)
+	switch e.Kind {
+	case "ready":
+		if n, ok := s.nodes[e.Node]; ok {
+			n.Ready = map[bool]string{true: "True", false: "False"}[e.Ready]
+		}
+	case "delete":
+		if n, ok := s.nodes[e.Node]; ok {
+			n.Deleting = true
+		}
+	case "budgets":
+		for i := range s.pools {
+			if s.pools[i].ID == e.Pool {
+				s.pools[i].Budgets = e.Budgets
+			}
+		}
+	case "add":
+		n := *e.NewNode
+		s.nodes[n.ID] = &n
+		s.order = append(s.order, n.ID)
+	}
+}
+
+type jOp struct {
+	Op       string   `json:"op"`
+	Method   string   `json:"method,omitempty"`
+	Event    *jEvent  `json:"event,omitempty"`
+	Between  []jEvent `json:"events_during_validation,omitempty"`
+	Cands    []jCand  `json:"candidates,omitempty"`
+	Proposed []int    `json:"proposed,omitempty"`
+	Mapping  map[string]int `json:"impl_mapping,omitempty"`
+	NewQueue []int    `json:"impl_newly_queued"`
+	IDs      []int    `json:"command,omitempty"`
+	OK       bool     `json:"ok,omitempty"`
+}
+
+type caseR struct {
+	Kind  string  `json:"kind"`
+	Pools []jPool `json:"pools"`
+	Nodes []jNode `json:"nodes"`
+	Ops   []jOp   `json:"ops"`
+}
+
+var scheduleAt = time.Date(2026, 9, 23, 11, 0, 0, 0, time.UTC)
+
+func genRoundBudgets(r *kit.Rand) []jBudget {
+	var bs []jBudget
+	switch r.Intn(5) {
+	case 0:
+		bs = append(bs, jBudget{Nodes: fmt.Sprint(r.Range(0, 3))})
+	case 1:
+		bs = append(bs, jBudget{Nodes: kit.Pick(r, []string{"10%", "20%", "34%", "50%", "100%"})})
+	case 2: // a blocking window at 11:00 for ten minutes, generous otherwise
+		bs = append(bs, jBudget{Nodes: "0", Schedule: ptr("0 11 * * *"), Duration: ptr("10m")}, jBudget{Nodes: fmt.Sprint(r.Range(1, 3))})
+	case 3: // per-reason budgets
+		bs = append(bs, jBudget{Nodes: fmt.Sprint(r.Range(0, 2)), Reasons: []string{string(kit.Pick(r, reasonNames))}}, jBudget{Nodes: "50%"})
+	default:
+		bs = append(bs, jBudget{Nodes: fmt.Sprint(r.Range(1, 2))}, jBudget{Nodes: "1", Schedule: ptr("*/30 * * * *"), Duration: ptr("5m")})
+	}
+	return bs
+}
+
+func runRounds(c *kit.Ctx, r *kit.Rand, nOps int) {
+	m0 := kit.Pick(r, []int{mEmptiness, mDrift, mMulti, mSingle})
+	pools, nodes, pinned := genWorld(r, m0, r.Range(1, 2))
+	for i := range pools {
+		if pools[i].ID != 9 {
+			pools[i].Budgets = genRoundBudgets(r)
+		}
+	}
+	// the clock starts shortly before 11:00 so that window edges are crossed by clock events
+	start := scheduleAt.Add(-time.Duration(r.Range(0, 120)) * time.Second)
+	w := newWorld(start.UnixNano())
+	w.build(pools, nodes)
+	s := &roundState{w: w, pools: pools, nodes: map[int]*jNode{}, pinned: pinned, queue: map[int]bool{}}
+	for i := range nodes {
+		n := nodes[i]
+		s.nodes[n.ID] = &n
+		s.order = append(s.order, n.ID)
+	}
+	sys0 := s.gSys()
+	clusterCost := cost.NewClusterCost(w.ctx, w.cp, w.c)
+	var gops []string
+	var jops []jOp
+	accepted := 0
+	cmdsInFlight := [][]int{}
+	nextID := 500
+	queued := func() map[int]bool {
+		out := map[int]bool{}
+		for pid := range w.queue.ProviderIDToCommand {
+			var id int
+			fmt.Sscanf(pid, "fake:///node-%d", &id)
+			out[id] = true
+		}
+		return out
+	}
+	genEnv := func() jEvent {
+		var ids []int
+		for _, id := range s.order {
+			if !s.nodes[id].Anchor && !pinned[id] {
+				ids = append(ids, id)
+			}
+		}
+		if len(ids) == 0 {
+			return jEvent{Kind: "clock", Time: w.clk.Now().Add(time.Second).UnixNano()}
+		}
+		switch r.Intn(8) {
+		case 0, 1:
+			return jEvent{Kind: "ready", Node: kit.Pick(r, ids), Ready: r.Chance(1, 3)}
+		case 2:
+			return jEvent{Kind: "delete", Node: kit.Pick(r, ids)}
+		case 3, 4:
+			// move the clock to a window edge or a little forward
+			now := w.clk.Now()
+			opts := []time.Time{now.Add(time.Duration(r.Range(1, 90)) * time.Second), scheduleAt.Add(-time.Nanosecond), scheduleAt, scheduleAt.Add(10*time.Minute - time.Nanosecond), scheduleAt.Add(10 * time.Minute), scheduleAt.Add(30 * time.Minute), scheduleAt.Add(35 * time.Minute)}
+			return jEvent{Kind: "clock", Time: kit.Pick(r, opts).UnixNano()}
+		case 5:
+			p := kit.Pick(r, pools)
+			if p.ID == 9 {
+				p = pools[0]
+			}
+			return jEvent{Kind: "budgets", Pool: p.ID, Budgets: genRoundBudgets(r)}
+		default:
+			nextID++
+			n := jNode{ID: nextID, Pool: pools[0].ID, Managed: true, HasNode: true, Init: r.Chance(2, 3), Ready: "True", Drifted: true}
+			return jEvent{Kind: "add", NewNode: &n}
+		}
+	}
+	for k := 0; k < nOps; k++ {
+		before := queued()
+		switch x := r.Intn(10); {
+		case x < 3:
+			e := genEnv()
+			s.applyEvent(e)
+			for _, t := range s.envTerms(e) {
+				gops = append(gops, fmt.Sprintf("(OEnv %s, [])", t))
+			}
+			jops = append(jops, jOp{Op: "env", Event: &e})
+		case x < 8:
+			m := m0
+			if r.Chance(1, 4) {
+				m = kit.Pick(r, []int{mEmptiness, mDrift, mMulti, mSingle})
+			}
+			var between []jEvent
+			var betweenTerms []string
+			dv := &delayedValidator{}
+			var cur []jCand
+			var rec *recMethod
+			if m != mDrift {
+				for j := r.Intn(3); j > 0; j-- {
+					between = append(between, genEnv())
+				}
+				dv.between = func() {
+					for _, e := range between {
+						s.applyEvent(e)
+						betweenTerms = append(betweenTerms, s.envTerms(e)...)
+					}
+					// the candidates as the validator is about to see them
+					cur = w.toJCands(w.candidates(rec), pinned)
+				}
+			}
+			rec = &recMethod{Method: w.newMethod(m, dv, true)}
+			ctrl := disruption.NewController(w.clk, w.c, w.prov, w.cp, w.recorder, w.cluster, w.queue, clusterCost, disruption.WithMethods(rec))
+			if _, err := ctrl.Reconcile(w.ctx); err != nil {
+				panic(fmt.Sprintf("Reconcile(%s): %v", methodNames[m], err))
+			}
+			after := queued()
+			var newq []int
+			for id := range after {
+				if !before[id] {
+					newq = append(newq, id)
+				}
+			}
+			sort.Ints(newq)
+			jc := w.toJCands(rec.cands, pinned)
+			var proposed []int
+			if len(dv.prop) > 0 {
+				proposed = cmdIDs(dv.prop[:1])
+			} else {
+				proposed = cmdIDs(rec.cmds)
+			}
+			if m == mSingle || m == mDrift {
+				for i := range jc {
+					jc[i].SimOK = len(proposed) > 0 && jc[i].Node == proposed[0]
+				}
+				// the method's internal order is not observable: put the proposed candidate first
+				sort.SliceStable(jc, func(i, j int) bool {
+					return len(proposed) > 0 && jc[i].Node == proposed[0] && jc[j].Node != proposed[0]
+				})
+			}
+			for _, id := range newq {
+				s.nodes[id].Marked = true
+			}
+			if len(newq) > 0 {
+				accepted++
+				cmdsInFlight = append(cmdsInFlight, newq)
+				c.Count("R:" + methodNames[m] + ":command-accepted")
+			} else if len(proposed) > 0 {
+				c.Count("R:" + methodNames[m] + ":proposal-rejected-by-validation")
+			} else if rec.called {
+				c.Count("R:" + methodNames[m] + ":no-proposal")
+			} else {
+				c.Count("R:" + methodNames[m] + ":no-candidates")
+			}
+			gops = append(gops, fmt.Sprintf("(ODisrupt %s %s (ChK %d) %s %s [] %s, %s)", methodNames[m], kit.GListOf(jc, gCand), len(proposed),
+				kit.GList(betweenTerms), kit.GListOf(cur, gCand), kit.GListOf(cur, gCand), gInts(newq)))
+			jops = append(jops, jOp{Op: "disrupt", Method: methodNames[m], Between: between, Cands: jc, Proposed: proposed, NewQueue: newq, Mapping: rec.mapping})
+		case x < 9 && len(cmdsInFlight) > 0:
+			// the queue finishes a command (successfully if it needs no replacement, else it times out)
+			i := r.Intn(len(cmdsInFlight))
+			ids := cmdsInFlight[i]
+			cmdsInFlight = append(cmdsInFlight[:i], cmdsInFlight[i+1:]...)
+			cmd := w.queue.ProviderIDToCommand[providerID(ids[0])]
+			ok := cmd != nil && len(cmd.Replacements) == 0 && r.Chance(3, 4)
+			if cmd != nil {
+				if !ok {
+					// let the command time out: the queue then gives up and un-marks the candidates
+					e := jEvent{Kind: "clock", Time: w.clk.Now().Add(2 * time.Hour).UnixNano()}
+					s.applyEvent(e)
+					for _, t := range s.envTerms(e) {
+						gops = append(gops, fmt.Sprintf("(OEnv %s, [])", t))
+					}
+					for j := range cmd.Replacements {
+						cmd.Replacements[j].Initialized = false
+					}
+					if len(cmd.Replacements) == 0 {
+						// a delete command cannot fail by itself; emulate the failure path of Queue.Reconcile
+						w.queue.CompleteCommand(cmd)
+					} else if _, err := w.queue.Reconcile(w.ctx, w.claims[ids[0]]); err != nil {
+						panic(err)
+					}
+				} else if _, err := w.queue.Reconcile(w.ctx, w.claims[ids[0]]); err != nil {
+					panic(err)
+				}
+			}
+			for _, id := range ids {
+				if ok {
+					s.nodes[id].Deleting = true
+					w.refresh(id)
+				} else {
+					s.nodes[id].Marked = false
+				}
+			}
+			gops = append(gops, fmt.Sprintf("(OComplete %s %s, [])", gInts(ids), kit.GBool(ok)))
+			jops = append(jops, jOp{Op: "complete", IDs: ids, OK: ok})
+			c.Count(fmt.Sprintf("R:complete:ok=%v", ok))
+		case x == 9 && r.Chance(1, 3):
+			// restart: the queue and the in-memory marks are lost, the API objects stay
+			w.cluster.Reset()
+			w.queue = disruption.NewQueue(w.c, w.recorder, w.cluster, w.clk, w.prov)
+			for _, id := range s.order {
+				w.refresh(id)
+				s.nodes[id].Marked = false
+			}
+			cmdsInFlight = nil
+			gops = append(gops, "(ORestart, [])")
+			jops = append(jops, jOp{Op: "restart"})
+			c.Count("R:restart")
+		}
+	}
+	key := ""
+	if accepted > 0 {
+		key = "R:" + strings.Join(gops, ";")
+	}
+	c.AddCase(fmt.Sprintf("CaseR %s %s", sys0, kit.GList(gops)), caseR{"rounds", pools, nodes, jops}, key)
+}
+
+func partRounds(c *kit.Ctx) {
+	n, ops := 60, 8
+	if c.Thorough() {
+		n, ops = 500, 14
+	}
+	for i := 0; i < n; i++ {
+		runRounds(c, c.Rand.Fork(), ops)
+	}
+}
